@@ -32,6 +32,7 @@ ASSUMPTIONS = [
     "beta, eta, x and the 2D fields come from finite alphabets/families (all special-cased values included); not every real input",
     "jax.vmap over a batch of small arrays evaluates the same Python code as a plain call (plain calls are compared on three arrays per case)",
     "XLA:CPU flushes subnormal numbers to zero: subnormal inputs take part in the finiteness/range/monotonicity checks but count as 0 in the clip/step comparisons",
+    "range / fixed-point identities are demanded up to round-off of representing eta in the working precision: 1e-12 (f64) / 1e-5 (f32) + 2*eps*eta*min(beta, 0.45/(1-eta))",
     "'cell without an interface' = zero central/one-sided finite-difference gradient or |eta - rho| >= |grad rho| * 1 pixel (safety margin over any sub-pixel smoothing radius)",
 ]
 
@@ -131,6 +132,11 @@ def _tanh_case(case, fail):
             nontriv += int(((x > 0) & (x < 1)).sum())
         cls = "beta=0" if beta == 0 else "beta=inf" if np.isinf(beta) else "0<beta<inf"
         ecl = "eta-interior" if 0 < eta < 1 else f"eta={int(eta)}"
+        # round-off allowance: eta is rounded to the working precision where it meets x (|d eta| <= eps*eta) and the result is
+        # sensitive to it by at most beta*sech^2(beta(1-eta)) <= min(beta, 0.45/(1-eta))
+        tol = (1e-12 if dt == "f64" else 1e-5)
+        if 0 < beta < np.inf and 0 < eta < 1:
+            tol += 2 * float(np.finfo(npd).eps) * eta * min(beta, 0.45 / (1 - eta))
         if y.dtype != npd:
             fail(f"tanh:dtype-changed:{dt}", dict(tag, got=str(y.dtype)))
         if not np.all(np.isfinite(y)):
